@@ -7,6 +7,8 @@ from __future__ import annotations
 
 import itertools as it
 
+import contextlib
+
 import numpy as np
 
 from .. import monitors
@@ -212,6 +214,30 @@ def run_single(case, ctx):
             nb = np.sort(np.sqrt((outs[int(gi)].reshape(int(np.prod(shape)), -1) ** 2).sum(1)))
             if not np.allclose(na, nb, atol=1e-4):
                 viols.append(viol(monitors.classify_action(D, shape, g, "array"), f"per-pixel Frobenius norms not preserved: {key} g={g.tolist()}"))
+        viols += _mon.take()
+    # other representations of the same image: int32 data, a NumPy array handed over as it is, float64 data in x64 mode
+    # whose values do not fit float32 - a signed permutation of the values must come back exactly, in the same dtype
+    if not viols and not case.get("large"):
+        import jax
+
+        for rep in ("int32", "numpy", "float64-x64"):
+            with (jax.enable_x64() if rep == "float64-x64" else contextlib.nullcontext()):
+                Ar = {"int32": lambda: jnp.asarray(A.astype(np.int32)), "numpy": lambda: A.astype(np.float32), "float64-x64": lambda: jnp.asarray(A.astype(np.float64) * (1 + 2.0**-40) + 2.0**-33)}[rep]()
+                An = np.asarray(Ar)
+                for gi in rng.choice(len(G), size=min(len(G), 4), replace=False):
+                    g = G[int(gi)]
+                    try:
+                        o = geom.times_group_element(D, Ar, p, g)
+                        o2 = geom.GeometricImage(Ar, p, D, torus).times_group_element(g).data
+                    except Exception as e:
+                        viols.append(viol(f"action-exception-{rep}", f"times_group_element raised {type(e).__name__}: {str(e)[:200]} for {rep} data; {key} g={g.tolist()}"))
+                        break
+                    evals += 2
+                    want = ract.act(D, An.astype(np.float64), k, p, g)
+                    for nm, got in (("array", o), ("GeometricImage", o2)):
+                        if not np.array_equal(np.asarray(got).astype(np.float64), want) or (rep == "float64-x64" and str(got.dtype) != "float64"):
+                            viols.append(viol(f"action-not-exact-{rep}", f"{nm} entry: g.A is not the signed permutation of the {rep} values (dtype {got.dtype}, max diff {np.max(np.abs(np.asarray(got).astype(np.float64) - want)) if np.shape(got) == want.shape else 'shape'}); {key} g={g.tolist()}"))
+                            break
         viols += _mon.take()
     nontrivial = len(set(shape)) > 1 or k >= 1
     return result(
